@@ -31,7 +31,7 @@ from operon_ai.coordination.types import LockResult, Phase
 ID = "C14"
 LEVEL = "fault_enumeration"
 ENGINE = "seq"
-RUNS = {"quick": 24_000, "thorough": 1_200_000}
+RUNS = {"quick": 100_000, "thorough": 2_500_000}
 RULE = ("run i < table size decodes the i-th case of the finite table {request-list shape over 1..3 resources incl. "
         "repeated entries} x {no foreign holder, k-th entry held and blocking, k-th entry held and pre-emptable, "
         "unrequested resource held} x {one fault at each step of execute_operation: each checkpoint evaluation false or "
